@@ -97,6 +97,7 @@ def native_call(path, call):
   """Replay: evaluate the counterexample call with plain Python.  Returns (violated, detail)."""
   common.setup_path()
   sys.path.insert(0, os.path.join(common.VERIF, "props"))
+  os.environ["VERIF_NATIVE"] = "1"      # harnesses with stubs switch to the real library for replay
   mod = load_harness(path)
   ns = dict(vars(mod))
   ns.setdefault("nan", float("nan"))
